@@ -153,7 +153,7 @@ func TestVP_C09_finalization(t *testing.T) {
 	c.Require("honest-accepted", "honest-below-threshold", "exact-threshold", "mask-added", "mask-removed", "mask-moved", "mask-bit>=n", "sig-R-flip", "sig-s-flip",
 		"snapshot-edit", "replay-other-snapshot", "other-history", "other-history-accepted", "other-time-keys", "cache-hit", "cache-miss", "pledging-chain-round0", "non-genesis-history",
 		"removal-window", "threshold-unreachable", "no-signature")
-	kit.SetChecks(kit.N(300, 20000))
+	kit.SetChecks(kit.N(800, 20000))
 	cache := vpKMNewCache()
 	defer cache.Close()
 	maxG := 10
